@@ -302,6 +302,22 @@ func runC01(c *core.Ctx, idx int) {
 					c.Cover("coerced_number_text", txt+" under "+op)
 				}
 			}
+			if store == qx.Things && !viaChild && k >= 9 && k < 12 {
+				// sub-queries nested two deep, with a name of the middle store behind the inner sub-query: friends (others)
+				// whose things (things again) ... and whose own rank / name ...
+				inner := &qx.SubQ{Set: "things", Q: &qx.Query{Pred: []qx.Expr{qx.Const{V: true}, qx.Cmp{L: qx.LHS{Kind: "sym", Sym: "s"}, Op: "!=", R: []qx.Lit{qx.LNull()}}, qx.Cmp{L: qx.LHS{Kind: "sym", Sym: "ibig"}, Op: ">=", R: []qx.Lit{qx.LInt(0)}}}[k-9]}}
+				var first qx.Expr = qx.Not{E: qx.IsEmpty{Sub: inner}}
+				if k == 10 {
+					first = qx.Cmp{L: qx.LHS{Kind: "count", Sub: inner}, Op: ">=", R: []qx.Lit{qx.LInt(1)}}
+				}
+				behind := qx.Cmp{L: qx.LHS{Kind: "sym", Sym: "rank"}, Op: ">=", R: []qx.Lit{qx.LInt(int64(k - 10))}}
+				outer := &qx.SubQ{Set: "friends", Q: &qx.Query{Pred: qx.And{L: first, R: behind}}}
+				e = qx.Cmp{L: qx.LHS{Kind: "count", Sub: outer}, Op: ">=", R: []qx.Lit{qx.LInt(1)}}
+				if k == 11 {
+					e = qx.And{L: qx.Not{E: qx.IsEmpty{Sub: outer}}, R: qx.Cmp{L: qx.LHS{Kind: "sym", Sym: "ibig"}, Op: "!=", R: []qx.Lit{qx.LNull()}}}
+				}
+				c.Count("scripted_sub_queries_two_deep", 1)
+			}
 			if viaKidlist && k < 5 {
 				// every member of the set typed to the child store, counted: the list also holds ids without child data and,
 				// for some owners, the empty string
